@@ -232,7 +232,7 @@ def run_model_tie(ctx):
         ctx.broken.append("correspondence:C03 model tie has no cases")
         return
     try:
-        bad = ctx.coq_failing(TIE_HEADER, cases, name="tie", shard=20, timeout=900)
+        bad = ctx.coq_failing(TIE_HEADER, cases, name="tie", shard=5, timeout=900)
         same_order = ctx.coq_failing(TIE_HEADER, differ, name="tieord", shard=100, timeout=900)
     except RuntimeError as e:
         ctx.broken.append("correspondence:C03 tabling model does not evaluate")
